@@ -115,7 +115,7 @@ import (
 )
 
 const simMaxDec = 1 << 22
-const simSpinLimit = 1000000
+const simSpinLimit = 50000
 
 type simschedState struct {
 	enabled    bool
@@ -134,6 +134,8 @@ type simschedState struct {
 	spinSites  uint64 // yield sites visited since the bubble clock last moved
 	spinNow    int64
 	spinSleeps uint64 // virtual-time sleeps injected into spinning runs
+	spinLevel  uint32
+	spinEnd    int64
 	ndec       uint32 // decisions recorded / consumed
 	nplay      uint32 // decisions available for playback
 	dec        [simMaxDec]uint8
@@ -209,6 +211,7 @@ func simEnable(schedSeed, auxSeed uint64, yieldThr uint32) {
 	simsched.picks, simsched.yields, simsched.yieldSites, simsched.multi = 0, 0, 0, 0
 	simsched.hash, simsched.diverge = 0, 0
 	simsched.spinSites, simsched.spinNow, simsched.spinSleeps = 0, -1, 0
+	simsched.spinLevel, simsched.spinEnd = 0, -1
 	simsched.ndec = 0
 	simsched.over = false
 	// Drop any preemption request raised against this goroutine before
@@ -323,16 +326,26 @@ func simYield() {
 		simsched.spinSites++
 		if simsched.spinSites > simSpinLimit {
 			simsched.spinSites = 0
-			n := simsched.spinSleeps
-			simsched.spinSleeps++
-			if n > 24 {
-				n = 24
+			// escalate only while no virtual time has passed since the previous
+			// injected sleep ended (a genuine spin); isolated bursts of work at
+			// one instant just get a 1 microsecond sleep
+			if now <= simsched.spinEnd {
+				simsched.spinLevel++
+			} else {
+				simsched.spinLevel = 0
 			}
-			if simsched.spinSleeps > 4000 {
+			simsched.spinSleeps++
+			if simsched.spinSleeps > 100000 {
 				print("SIMSPIN: runaway spin in virtual time, giving up\n")
 				exit(4)
 			}
-			timeSleep(int64(1000) << n)
+			lv := simsched.spinLevel
+			if lv > 8 {
+				lv = 8
+			}
+			d := int64(1000) << (3 * lv)
+			simsched.spinEnd = now + d
+			timeSleep(d)
 		}
 	}
 	var d uint32
